@@ -42,7 +42,7 @@ var schedPoints = []string{"FirstIndex.checked", "LastIndex.checked", "GetLog.ch
 
 const schedSegSize = 4096
 
-func payload(idx uint64, tag uint64, big bool) []byte {
+func schedPayload(idx uint64, tag uint64, big bool) []byte {
 	n := 16
 	if big {
 		n = 4200
@@ -310,7 +310,7 @@ func runOp(o *opCtx, r *role, op string) (out string) {
 		var logs []*raft.Log
 		h.mu.Lock()
 		for i := uint64(0); i < n; i++ {
-			logs = append(logs, &raft.Log{Index: idx + i, Term: 1, Type: raft.LogCommand, Data: payload(idx+i, tag, big && i == n-1)})
+			logs = append(logs, &raft.Log{Index: idx + i, Term: 1, Type: raft.LogCommand, Data: schedPayload(idx+i, tag, big && i == n-1)})
 			h.pending = append(h.pending, [2]uint64{idx + i, tag})
 		}
 		h.mu.Unlock()
